@@ -10,8 +10,17 @@ CONSTANTS
   EncChoices = {FALSE}
   ByValueMax = 1
   AllowConflicts = FALSE
+  Features = {}
+  Window = 2
+  Retention = 2
+  BurstSizes = {1, 2}
+  MaxApps = 0
   Depth = 1000
-  WProgress = 70
+  WProgress = 60
+  WPropose = 30
+  WCommit = 35
+  WApp = 15
+  WStore = 10
 VIEW view
 INVARIANT TypeOK
 INVARIANT Agreement
@@ -21,4 +30,9 @@ INVARIANT PrivMatchesPub
 INVARIANT RecipientsEntitled
 INVARIANT NoDecapFailure
 INVARIANT PendingOnCurrentEpoch
+INVARIANT ProvidersAgree
+INVARIANT RetentionExact
+INVARIANT NoGenerationReuse
+INVARIANT AtMostOnce
+PROPERTY StepsByOne
 CHECK_DEADLOCK FALSE
